@@ -23,7 +23,10 @@ and L the step/instant at which the last inner recorder that was live at D stopp
   (a) no callback of the outer recorder after D; no callback of an inner recorder after its own
       dispose() returned (policy sub1, horizon);
   (b) no user-callback (probe) invocation after L — between D and L the pipeline legitimately
-      runs on behalf of the live window/group subscribers;
+      runs on behalf of the live window/group subscribers.  One exception, forced by R4: while a
+      subscription that existed at L is still open because its release is asynchronous by design
+      (subscribe_on disposes upstream through the scheduler, later in the same instant), callbacks
+      upstream of it that run before that release lands are not counted;
   (c) every source subscription is closed no later than the instant of L (== the dispose
       instant when there is no live inner subscriber), and none is opened after that instant.
       Which subscriptions are "shared with a live inner subscriber" is not observable from
@@ -94,6 +97,11 @@ def judge(base, R):
                 L, tL = e[0], max(tL, e[1])
     for (step, t, slot, k) in R.env.probe_log:
         if step > L:
+            if any(s["sub_step"] < L and s["unsub_step"] is not None and s["unsub_step"] > step and s["unsub_time"] == tL for s in R.env.sublog):
+                # R4: a release that is asynchronous by design (subscribe_on's ScheduledDisposable) lands later in the dispose instant;
+                # until it has landed the upstream part is still subscribed and a source emitting in that very instant makes its
+                # callbacks run.  Accepting "closed at that instant" by virtual time entails accepting these invocations.
+                continue
             # same-instant: a handler that carries on after the downstream call in which the disposal happened; later: work that
             # escaped disposal (a timer, an inner subscription) and fires at a later instant
             problems.append(("callback-after-dispose:" + ("same-instant" if t == tL else "later"), slot, f"user callback {slot} (invocation {k}) runs at t={t:g} step={step}, after dispose() returned at t={tD:g} step={D}" + (f" and the last live inner subscriber ended at step={L}" if live else "")))
